@@ -64,12 +64,36 @@ def counts2_md():
         nthm += len(re.findall(r'^\s*(Theorem|Corollary)\s', open(f).read(), re.M))
     return 'about %d 000 lines of hand-written Coq in `coq/` (20 property directories + `Base`, `Lib`; `Gen` is regenerated), %d property theorems' % (round(nlines / 1000.0), nthm)
 
+def levels_md():
+    """Per property: what is regenerated from source, the technique and the level text, straight from the
+    harness modules (the same strings the checks put into MANIFEST.json and the evidence files)."""
+    import glob, importlib, sys
+    sys.path.insert(0, HERE)
+    out = []
+    for f in sorted(glob.glob(os.path.join(HERE, 'harness', 'c[0-9][0-9].py'))):
+        m = importlib.import_module('harness.' + os.path.basename(f)[:-3])
+        pid = m.PID
+        try:
+            ev = json.load(open(os.path.join(HERE, 'evidence', pid + '.json')))['coverage']
+        except Exception:
+            ev = {}
+        gen = ev.get('generated_files') or []
+        out.append('**%s** — %s.' % (pid, m.TECHNIQUE.strip().rstrip('.')))
+        out.append('*Regenerated from /repo on every run:* %s.' % (', '.join('`%s`' % g for g in gen) if gen else
+                   'nothing; the hand-written model is tied by the in-Coq correspondence alone'))
+        out.append(re.sub(r'\s+', ' ', m.LEVEL_TEXT.strip()))
+        note = getattr(m, 'LEVEL_NOTE', '')
+        if note:
+            out.append('*Modelled, not verified:* ' + re.sub(r'\s+', ' ', note.strip()))
+        out.append('')
+    return '\n'.join(out)
+
 def seeds_md():
     return subprocess.check_output([os.path.join(HERE, 'tools', 'seed_table.py')], text=True)
 
 p = os.path.join(HERE, 'DESIGN.md')
 s = open(p).read()
-for name, gen in (('findings', findings_md), ('seeds', seeds_md), ('status', status_md), ('counts', counts_md), ('counts2', counts2_md)):
+for name, gen in (('findings', findings_md), ('levels', levels_md), ('seeds', seeds_md), ('status', status_md), ('counts', counts_md), ('counts2', counts2_md)):
     pat = re.compile(r'(<!-- AUTO:%s -->).*?(<!-- /AUTO:%s -->)' % (name, name), re.S)
     if pat.search(s):
         s = pat.sub(lambda m: m.group(1) + '\n' + gen() + '\n' + m.group(2), s)
